@@ -289,6 +289,21 @@ func c04Setup(tier string) *c04State {
 	}
 	st := &c04State{types: c04Types(depth)}
 	st.vals = c04Values(st.types)
+	if depth < 2 {
+		// a few targets and constants of depth 2 also in the quick tier: nested untyped empty literals
+		// inside concatenations are filled in by the other operand
+		tAA, tAM := gen.ArrOf(gen.ArrOf(tNum)), gen.ArrOf(gen.MapOf(tNum))
+		for _, e := range []struct {
+			t   *gen.Type
+			src string
+		}{
+			{tAA, "[[]]+[[1]]"}, {tAA, "[[1]]+[[]]"}, {tAA, "[[]]+[[1]]+[[]]"}, {tAA, "[[] []]+[[1] [2]]"}, {tAA, "[[]]*2+[[1]]"}, {tAA, "([[]]+[[1]])"}, {tAA, "[[]]+[[1]][:1]"},
+			{tAM, "[{}]+[{a:1}]"}, {tAM, "[{a:1}]+[{}]"}, {tAM, "[{}]+[{a:1}]+[{}]"},
+		} {
+			st.vals = append(st.vals, c04Val{kind: "expr-concat", t: e.t, src: e.src})
+		}
+		st.types = append(st.types, gen.ArrOf(gen.ArrOf(tAny)), gen.ArrOf(gen.MapOf(tAny)), tAA, tAM)
+	}
 	return st
 }
 
